@@ -36,14 +36,17 @@ type item struct {
 
 // aworld is the chain of one case plus the bookkeeping the generator needs to keep most transactions valid.
 type aworld struct {
-	c       *cs.Chain
-	cast    *cs.Cast
-	senders []cs.Signer // accounts that were not used yet in this block (every valid transaction takes a fresh one)
-	orders  []aorder    // open orders of the setup block, each usable once
-	staked  []cs.Signer // delegates staked in the setup block (edit-stake / unstake targets), each usable once
-	vesting []byte      // an account with an active vesting schedule
-	salt    uint64
-	nonces  map[string]uint64
+	c        *cs.Chain
+	cast     *cs.Cast
+	senders  []cs.Signer // accounts that were not used yet in this block (every valid transaction takes a fresh one)
+	orders   []aorder    // open orders of the setup block, each usable once
+	staked   []cs.Signer // delegates staked in the setup block (edit-stake / unstake targets), each usable once
+	vesting  []byte      // an account with an active vesting schedule
+	c2orders [][]byte    // open sell orders of committee 2 (lock targets of certificate-results transactions)
+	c2Next   uint64      // next certificate height of committee 2
+	ckpt     uint64      // highest checkpoint height offered for committee 2 so far
+	salt     uint64
+	nonces   map[string]uint64
 }
 
 type aorder struct {
@@ -91,6 +94,9 @@ func newAWorld(t fataler) *aworld {
 	p.Validator.MinimumStakeForValidators = minValStake
 	p.Validator.MinimumStakeForDelegates = minDelStake
 	g, cast := cs.RichGenesis(1, cs.GenesisOpts{Params: p})
+	for i := 0; i < 4; i++ { // validators 0..3 also form the root chain's committee for the nested chain 2
+		g.Validators[i].Committees = []uint64{1, 2}
+	}
 	c, err := cs.New(cs.Opts{Genesis: g})
 	if err != nil {
 		t.Fatalf("new chain: %v", err)
@@ -106,6 +112,18 @@ func newAWorld(t fataler) *aworld {
 	order(cs.Signer{Kind: cs.KindSecp, Key: 11}, 2)
 	order(cs.Signer{Kind: cs.KindEth, Key: 11}, 3)
 	order(cs.Signer{Kind: cs.KindBLS, Key: 11}, 4)
+	for i, s := range []cs.Signer{{Kind: cs.KindEd, Key: 11}, {Kind: cs.KindSecp, Key: 11}, {Kind: cs.KindEth, Key: 11}, {Kind: cs.KindBLS, Key: 11}, {Kind: cs.KindEd, Key: 14}} {
+		bz := w.sign(t, s, &fsm.MessageCreateOrder{ChainId: 2, Data: []byte{byte(20 + i)}, AmountForSale: cs.MinOrder + 20, RequestedAmount: 8, SellerReceiveAddress: bytes.Repeat([]byte{byte(20 + i)}, 20), SellersSendAddress: s.Address()})
+		setup = append(setup, bz)
+		w.c2orders = append(w.c2orders, crypto.Hash(bz)[:20])
+	}
+	// committee 2 certifies a first checkpoint (height 10): later certificates offering a height <= 10 fail at the checkpoint step
+	ck, _, cerr := c.SignedCertResultsTx(2, &lib.CertificateResult{Checkpoint: &lib.Checkpoint{Height: 10, BlockHash: crypto.Hash([]byte("ckpt-10"))}}, cs.CertOpts{Height: 1, RootHeight: c.Height()})
+	if cerr != nil {
+		t.Fatalf("harness: certificate: %v", cerr)
+	}
+	setup = append(setup, ck)
+	w.c2Next, w.ckpt = 2, 10
 	for _, s := range []cs.Signer{{Kind: cs.KindEd, Key: 14}, {Kind: cs.KindSecp, Key: 14}, {Kind: cs.KindBLS, Key: 14}} {
 		setup = append(setup, w.sign(t, s, &fsm.MessageStake{PublicKey: s.PublicKey(), Amount: 5000, Committees: []uint64{1}, OutputAddress: s.Address(), Delegate: true}))
 		w.staked = append(w.staked, s)
@@ -156,6 +174,39 @@ func asEth(rt *rapid.T, s cs.Signer, m lib.MessageI) cs.Signer {
 		}
 	}
 	return s
+}
+
+// certItem builds a really signed certificate-results transaction of committee 2 that locks an open sell order (the lock emits
+// an order-book event) and then offers a checkpoint: a fresh one (valid) or a stale one (the transaction fails at the checkpoint
+// step, AFTER the lock and its event).
+func certItem(rt *rapid.T, w *aworld, stale bool) (item, bool) {
+	if len(w.c2orders) == 0 {
+		return item{}, false
+	}
+	id := w.c2orders[0]
+	w.c2orders = w.c2orders[1:]
+	h := w.c.Height()
+	ckH := w.ckpt + 10
+	if stale {
+		ckH = rapid.SampledFrom([]uint64{10, 1, 9}).Draw(rt, "stale-checkpoint")
+	} else {
+		w.ckpt = ckH
+	}
+	buyer := freshAddr(w)
+	res := &lib.CertificateResult{
+		Orders:     &lib.Orders{LockOrders: []*lib.LockOrder{{OrderId: id, ChainId: 2, BuyerReceiveAddress: buyer, BuyerSendAddress: buyer, BuyerChainDeadline: h + 60}}},
+		Checkpoint: &lib.Checkpoint{Height: ckH, BlockHash: crypto.Hash([]byte(fmt.Sprintf("ckpt-%d-%d", ckH, w.c2Next)))},
+	}
+	bz, _, err := w.c.SignedCertResultsTx(2, res, cs.CertOpts{Height: w.c2Next, RootHeight: h, ProposerIdx: int(w.c2Next % 3)})
+	if err != nil {
+		rt.Fatalf("harness: certificate: %v", err)
+	}
+	w.c2Next++
+	if stale {
+		return item{bz: bz, label: fmt.Sprintf("certificateResults(committee 2: lock order %x, checkpoint %d) [fails late: stale checkpoint AFTER the order lock emitted its event]", id[:4], ckH),
+			intent: "fails-late", class: "late=cert-results-lock-then-stale-checkpoint"}, true
+	}
+	return item{bz: bz, label: fmt.Sprintf("certificateResults(committee 2: lock order %x, checkpoint %d)", id[:4], ckH), intent: "valid", class: "valid=certificateResults"}, true
 }
 
 func freshAddr(w *aworld) []byte { w.salt++; return cs.Addr(keys.Ed(int(9000 + w.salt))) }
@@ -427,11 +478,19 @@ func TestC07aAtomicity(t *testing.T) {
 			var L []item
 			n := rapid.IntRange(3, 9).Draw(rt, "n")
 			for len(L) < n {
-				switch rapid.IntRange(0, 9).Draw(rt, "slot") {
+				switch rapid.IntRange(0, 10).Draw(rt, "slot") {
 				case 0, 1, 2, 3:
 					L = append(L, validItem(rt, w, nil))
 				case 4, 5:
 					L = append(L, failingItem(rt, w, nil))
+				case 10: // certificate results of the nested committee: lock an order, then fail (or not) at the checkpoint step
+					if it, ok := certItem(rt, w, rapid.IntRange(0, 2).Draw(rt, "cert-stale") != 0); ok {
+						L = append(L, it)
+						if it.intent != "valid" && rapid.Bool().Draw(rt, "cert-then-valid") {
+							L = append(L, validItem(rt, w, nil))
+						}
+						cse.Class("shape=certificate-results-with-event-before-failure")
+					}
 				case 6: // two failing ones back to back
 					L = append(L, failingItem(rt, w, nil), failingItem(rt, w, nil))
 					cse.Class("shape=two-failing-back-to-back")
